@@ -227,6 +227,32 @@ def run(ck):
                 dmax = max(float(np.max(np.abs(a.astype(float) - b.astype(float)))) for a, b in zip(outsd[0], outsd[k]))
                 ck.violation(f'same seed/data/config gives different predictions (max diff {dmax}) on discrete data split along the integer-coded column ({descd})', dict(descd, maxdiff=dmax),
                              key=json.dumps(dict(site='seed-reproducibility', method='tied')))
+    # (2e) separate interpreter processes (each with its own string-hash salt, PYTHONHASHSEED = 1 / 2 / 3): the same seed, data and configuration give bit-identical predictions
+    import subprocess, sys, hashlib
+    script = ("import numpy as np, torch, hashlib, sys, io, contextlib\n"
+              "from xrfm import xRFM\n"
+              "rng = np.random.default_rng(5)\n"
+              "X = rng.standard_normal((140, 3)).astype(np.float32); y = (X[:, :1] ** 2 + 0.3 * X[:, 1:2]).astype(np.float32); Xv = rng.standard_normal((40, 3)).astype(np.float32); yv = (Xv[:, :1] ** 2).astype(np.float32)\n"
+              "Q = rng.standard_normal((30, 3)).astype(np.float32)\n"
+              "p = {'model': dict(kernel='l2', exponent=1.0, bandwidth=3.0, diag=False, bandwidth_mode='constant'), 'fit': dict(get_agop_best_model=True, return_best_params=True, reg=1e-2, iters=0, early_stop_rfm=False, verbose=False)}\n"
+              "m = xRFM(rfm_params=p, max_leaf_size=40, n_trees=int(sys.argv[1]), verbose=False, split_method='random_pca', random_state=77, refill_size=10, temp_tuning_space=[0.0, 0.3])\n"
+              "with contextlib.redirect_stdout(io.StringIO()):\n"
+              "    m.fit(torch.tensor(X), torch.tensor(y), torch.tensor(Xv), torch.tensor(yv)); out = np.asarray(m.predict(torch.tensor(Q)))\n"
+              "print('DIGEST', hashlib.sha1(out.tobytes()).hexdigest(), float(out[0, 0]))\n")
+    for nt in ((3,) if ck.tier == 'quick' else (1, 2, 3)):
+        digs = {}
+        for hs in ('1', '2', '3'):
+            env = dict(os.environ, PYTHONHASHSEED=hs, PYTHONPATH=REPO, OMP_NUM_THREADS='2', MKL_NUM_THREADS='2')
+            try:
+                r = subprocess.run([sys.executable, '-c', script, str(nt)], env=env, capture_output=True, text=True, timeout=300)
+                line = [l for l in r.stdout.splitlines() if l.startswith('DIGEST')]
+                digs[hs] = line[0] if line else f'no output (rc={r.returncode}): {r.stderr[-200:]}'
+            except Exception as e:
+                digs[hs] = f'subprocess failed: {e!r}'
+        ck.case(dict(kind='separate processes', n_trees=nt, digests=digs), nontrivial=True); ck.count('same seeded fit in three interpreter processes')
+        if len(set(digs.values())) != 1:
+            ck.violation(f'the same seed / data / configuration ({nt} trees, random_state=77, 2 threads) fitted in three separate interpreter processes gives different predictions: {digs}',
+                         dict(kind='separate processes', n_trees=nt, digests=digs, script=script), key=json.dumps(dict(site='seed-reproducibility', method='processes')))
     # (3) tie-forcing scenario from C10's tie theorem: accuracy on a tiny validation set, candidates tie
     for i in range(ck.n(6, 30)):
         D1 = data('class', 160, 3, K=2)
